@@ -102,6 +102,9 @@ def c15(chk):
     sample_events(chk, summ, ("obs.rpc_cfg", "obs.rpc_call", "obs.rpc_result"), n=4)
     s2 = rpc_runs(chk, "nolimit", classify=c15_classify, mode="nolimit", faults=0, calls=10, seed=chk.seed,
                   runs=1 if quick(chk) else 6, jobs=3, files=1)
+    # a configured maximum beyond 4 GiB: everything (8 MiB + 1 included) is delivered
+    s3 = rpc_runs(chk, "hugelimit", mode="hugelimit", faults=0, calls=10, seed=chk.seed,
+                  runs=1 if quick(chk) else 6, jobs=3, files=1)
 
 
 @prop("C11")
@@ -124,3 +127,6 @@ def c11(chk):
             elif r["ev"] == "obs.rpc_result" and r["nonce"] in calls:
                 chk.case(calls[r["nonce"]] + (r.get("ok"), r.get("status"), str(r.get("err"))[:20]))
     sample_events(chk, summ, ("tmo.set", "obs.rpc_result"), n=4)
+    # generated servers behind the inbound timeout layer: RequestTimeout at the deadline and the handler dropped
+    from props import replay_check
+    replay_check(chk, "codegen-deadline", vlib.harness("codegen-deadline"))
